@@ -4,7 +4,9 @@ configurations (origin, target, scatter, extras, subset-of-11, container).
 
 stdin : {"names11": [...], "extras": [...], "nproc": n,
          "groups": [{"o":..,"t":..,"sc":bool,"obs":[{"x":bool,"p":int,"ds":bool,"seed":int}, ...]}, ...]}
-stdout: RESULT {"groups": [{"obs": [{...observation...}]}], "scipp": version, "kernel_params": {...}}
+stdout: RESULT {"groups": [{"obs": [{...observation...}], "msgs": [...], "ksets": [...], "graphs": [...]}],
+                "scipp": version, "kernel_params": {...}}      (msg / rep_msg / kernels / rep are indices into the
+                                                                group's msgs / msgs / ksets / graphs tables)
 
 Per observation
   cls, msg       'ok' or the exception class name / str(exception) of convert
@@ -365,10 +367,29 @@ def observe(o, t, sc_, names11, extras, ob):
     return out
 
 
+def intern(table, index, item):
+    key = json.dumps(item)
+    if key not in index:
+        index[key] = len(table)
+        table.append(item)
+    return index[key]
+
+
 def run_groups(payload, groups):
+    """per group the messages, kernel sets and reported graphs are interned: obs refer to them by index"""
     res = []
     for g in groups:
-        res.append({'obs': [observe(g['o'], g['t'], g['sc'], payload['names11'], payload['extras'], ob) for ob in g['obs']]})
+        msgs, ksets, graphs = [], [], []
+        mi, ki, gi = {}, {}, {}
+        obs = []
+        for ob in g['obs']:
+            r = observe(g['o'], g['t'], g['sc'], payload['names11'], payload['extras'], ob)
+            r['msg'] = intern(msgs, mi, r['msg'])
+            r['rep_msg'] = intern(msgs, mi, r['rep_msg'])
+            r['kernels'] = intern(ksets, ki, r['kernels'])
+            r['rep'] = intern(graphs, gi, r['rep'])
+            obs.append(r)
+        res.append({'obs': obs, 'msgs': msgs, 'ksets': ksets, 'graphs': graphs})
     return res
 
 
